@@ -195,6 +195,11 @@ B("C12", "drop-guard-forgets-active-strand", "chalk-engine/src/logic.rs",
             self.unwind_stack();""",
   """            self.unwind_stack();""", "C12.SLG-GUARD")
 
+B("C12", "root-entry-keeps-leftover-search-graph", "chalk-recursive/src/fixed_point.rs",
+  """        self.stack.clear();
+        self.search_graph.rollback_to(DepthFirstNumber::MIN);""",
+  """        self.stack.clear();""", "C12.REC-PAIRING:solve_goal:unwind-of-solve_new_subgoal")
+
 # ---------------------------------------------------------------- C14
 B("C14", "const-bound-without-occurs-check", "chalk-solve/src/infer/unify.rs",
   """        let c1 = c.clone().try_fold_with(
